@@ -12,10 +12,13 @@ import (
 	"io"
 	"mime"
 	"mime/multipart"
+	"net"
 	"net/http"
+	"os"
 	"strings"
 	"sync"
 	"sync/atomic"
+	"syscall"
 
 	"verif/harness/internal/engine"
 	"verif/harness/internal/gen"
@@ -420,7 +423,7 @@ func (s *Service) ServeBytes(req *http.Request, contentType string, body []byte)
 // FaultKinds lists the single-fault kinds understood by applyFault.  The first
 // group are "failure signals" in the sense of C09.
 var FaultKinds = []string{
-	"transport-error", "status-500", "status-502-valid-body", "status-404-valid-body", "non-json", "not-array", "short-array", "long-array",
+	"transport-error", "transport-eof", "transport-unexpected-eof", "transport-reset", "status-500", "status-502-valid-body", "status-404-valid-body", "non-json", "not-array", "short-array", "long-array",
 	"errors", "errors+data", "missing-data", "missing-node", "node-wrong-type",
 	// shape contradictions (not failure signals):
 	"data-null", "node-null", "shape-scalar-for-object", "shape-object-for-list", "shape-list-nonmap", "shape-id-missing", "shape-id-nonstring", "shape-null-nonnull", "shape-list-for-object", "shape-emptylist-for-object",
@@ -429,7 +432,7 @@ var FaultKinds = []string{
 // IsFailureSignal reports whether kind is in the C09 list "up to and including a mistyped node".
 func IsFailureSignal(kind string) bool {
 	switch kind {
-	case "transport-error", "status-500", "status-502-valid-body", "status-404-valid-body", "non-json", "not-array", "short-array", "long-array",
+	case "transport-error", "transport-eof", "transport-unexpected-eof", "transport-reset", "status-500", "status-502-valid-body", "status-404-valid-body", "non-json", "not-array", "short-array", "long-array",
 		"errors", "errors+data", "missing-data", "missing-node", "node-wrong-type":
 		return true
 	}
@@ -443,6 +446,14 @@ func applyFault(req *http.Request, f *Fault, resps []map[string]any, isArray boo
 	switch f.Kind {
 	case "transport-error":
 		return nil, errors.New("fake transport: injected connection failure")
+	// the errors a real connection yields when the service read the request (it is in the log) and
+	// then went away without answering
+	case "transport-eof":
+		return nil, io.EOF
+	case "transport-unexpected-eof":
+		return nil, io.ErrUnexpectedEOF
+	case "transport-reset":
+		return nil, &net.OpError{Op: "read", Net: "tcp", Err: os.NewSyscallError("read", syscall.ECONNRESET)}
 	case "status-500":
 		return jsonResp(req, 500, []byte(`{"errors":[{"message":"boom"}]}`)), nil
 	case "status-502-valid-body", "status-404-valid-body":
